@@ -1,2 +1,3 @@
 pub mod version;
+pub mod range_ast;
 pub mod strings;
